@@ -156,7 +156,13 @@ pub fn prepare_input(s: &Scratch, header: &str, statements: &[String], fault: &I
 
 /// In-process: parse argv with clap and run, with the simulator installed.
 pub fn run_in_process(argv: &[String], dec: Decider, workers: usize) -> (CliResult, Core) {
-    let mut core = Core::new(dec, workers);
+    run_in_process_pool(argv, dec, workers, 0)
+}
+
+/// Same; `pool > 0` runs fork-join regions on the simulated worker pool of that size.
+pub fn run_in_process_pool(argv: &[String], dec: Decider, workers: usize, pool: usize) -> (CliResult, Core) {
+    let mut core = Core::new(dec, if pool > 0 { pool } else { workers });
+    core.pool_workers = pool;
     core.step_budget = 2_000_000;
     core.draw_budget = 50_000_000;
     let args: Vec<String> = argv.to_vec();
